@@ -207,6 +207,14 @@ func (u *Unit) loadCell(st *State, c *Cell) Val {
 		return v
 	}
 	var v Val
+	if c.Sym && strings.HasPrefix(c.Name, "g:") && types.Identical(c.T, types.Universe.Lookup("error").Type()) {
+		// package-level error value of a dependency: non-nil (A-GLOBALS)
+		id := u.newInt("deperr")
+		u.assume(Lt(id, IntLit(0)))
+		v = IfaceV{Nil: TFalse, Opq: id}
+		st.cells[c.ID] = v
+		return v
+	}
 	if c.Sym || st.symCells[c.ID] {
 		v = u.freshVal(st, c.T, c.Name, c.Old && c.Sym)
 	} else {
